@@ -1,0 +1,8 @@
+//go:build !verif
+
+package taskctl
+
+import "github.com/taskctl/taskctl/pkg/scheduler"
+
+// verifIdle is a no-op unless built with the "verif" tag (see scheduler_verif.go)
+func (s *Scheduler) verifIdle(g *scheduler.ExecutionGraph) {}
